@@ -15,6 +15,16 @@ CLAIMS = {
         text="Eq is defined in TLA+ over two heaps; TLC checks it is an equivalence refining CEq and enumerates every heap of <= N objects with two origin atoms, all pairs and every single-position origin flip / property change / child removal; the library's ==, != (both orders), hash stability, non-node operands and transitivity over all triples are compared with Eq. Recorded random forests with mutated copies are validated by Trace_Content.tla.",
         note="Trusted: TLC, zoo renderer, origin pool (distinct origin atoms are origins that compare unequal).",
         design="6 C02"),
+    "C03": dict(
+        technique="TLA+ state machine (Registry.tla) model-checked with TLC; every transition replayed into the library; recorded histories validated by a TLA+ trace specification",
+        text="The v2 registry is specified as a TLA+ state machine with one action per public operation (construct, dataclasses.replace, ASTNode.replace ok/failing, duplicate, detach, detach_self, drop/hold + garbage collection) and abstract ids (digest input + collision suffix). TLC checks RegExact, IdsUnique, IdDeterministic, FailFrame, NoPin (TypeOK) for every interleaving on 3 slots under injective and all-colliding digests (slot symmetry), exports every transition with a witness history, and each is replayed against the real library comparing registration, get_any / Cls.get for every class and strictness, id partition, id determinism, detach_self results and collection of dropped nodes. Random 30-50 step histories on ~25 objects with real digest sizes 8/2/1 are recorded and validated step by step by Trace_Registry.tla.",
+        note="Trusted: TLC (incl. symmetry reduction), the zoo renderer, CPython reference counting (gc.collect() before declaring a leak). All-colliding digests are forced by intercepting hashlib.blake2b for id digests in the test process.",
+        design="4.1, 6 C03"),
+    "C14": dict(
+        technique="TLA+ state machine (Registry.tla: Dup / Replace / DcReplace actions with post-condition invariants) + TLC transition export replayed into the library + TLA+ trace validation",
+        text="DupFaithful, ReplaceFaithful and DcReplaceFaithful are invariants of the Registry machine checked by TLC on 3-slot instances and a depth-bounded 4-slot instance that can duplicate real trees; every transition ending in duplicate / replace / dataclasses.replace is replayed: all nodes new, structure and identities per position, registration, ids not shared with registered originals, id determinism, unchanged init fields are the very same objects. Recorded random histories are validated by Trace_Registry.tla.",
+        note="Trusted: as C03. The parenthetical id clause is required only when the original carries no collision suffix (DESIGN 3.3).",
+        design="4.1, 6 C14"),
     "C05": dict(
         technique="TLA+ oracle (Heap.tla Pre/Post/Bfs/Gather) + TLC heap enumeration replayed into the library + TLC trace validation of recorded traversals",
         text="TLC enumerates every heap of <= N objects over three class profiles and, for the tree rooted at the newest object, every prune x filter subset; the expected dfs/bfs/gather/children observations are computed by the TLA+ operators of Heap.tla and replayed against the real library (order, position info, offered sets). Random trees of up to 40 objects are recorded from the library and accepted or rejected line by line by Trace_Traverse.tla.",
